@@ -29,6 +29,7 @@ def lowerSem (which : String) (b : Sem.Block) : Option Sem.Block :=
   | "break" => some (Sem.Jumps.lowerBreak (Sem.Jumps.stdGen 'b') b)
   | "continue" => some (Sem.Jumps.lowerContinue (Sem.Jumps.stdGen 'c') b)
   | "return" => some (Sem.Jumps.lowerReturn Sem.Jumps.stdDr Sem.Jumps.stdRv b)
+  | "rewrite" => some (Sem.Jumps.rewriteReturns b)
   | _ => none
 
 def b2s (b : Bool) : Sexp := Sexp.ofBool b
@@ -129,7 +130,7 @@ def handlers : List (String × (List Sexp → String)) := [
       let annos ← parseAnnoTable annos
       let ns ← mkNs g gen
       let (out, ns') ← runPass which root annos ns
-      let t := if which == "rewrite" then Sexp.list [.atom "none"] else tie which root out
+      let t := tie which root out
       pure (toString (Sexp.list [.atom "ok", stmtsToSexp out, callsSexp ns', t]))),
   ("c01j.execs", fun a => run do
       let [root, .list runs, fuel] := a | none
